@@ -160,8 +160,12 @@ func (r *Run) Finish() int {
 		}
 	}
 	b, _ := json.MarshalIndent(e, "", " ")
-	_ = os.MkdirAll(filepath.Join(Root, "evidence"), 0o755)
-	if err := os.WriteFile(filepath.Join(Root, "evidence", r.ID+".json"), b, 0o644); err != nil {
+	evDir := filepath.Join(Root, "evidence")
+	if d := os.Getenv("VERIF_EVIDENCE_DIR"); d != "" {
+		evDir = d // runs against seeded changes must not overwrite the evidence of the real tree
+	}
+	_ = os.MkdirAll(evDir, 0o755)
+	if err := os.WriteFile(filepath.Join(evDir, r.ID+".json"), b, 0o644); err != nil {
 		Fatalf("write evidence: %v", err)
 	}
 	var keys []string
